@@ -669,6 +669,8 @@ def call_method(run, recv, name, args, kwargs, node):
             default = args[1] if len(args) > 1 else kwargs.get('default', NONE)
             inside = recv.elem(k)
             if default is NONE:
+                if run.qstack:
+                    return sx.SMaybe(recv.dom[k], inside)
                 if run.choose(recv.dom[k]):
                     return inside
                 return NONE
